@@ -575,6 +575,20 @@ func runSweep(payload string) string {
 				c1.Unmarshal()
 				c1.Traverse(0, 0)
 				c1.IsNesting()
+				// ... and as the argument of another instance's setters that take `any` (a logger, a delimiter, an ID is not
+				// what it is, but it is what the caller passed): what that other instance is told afterwards is its own business
+				w := stackage.List()
+				w.SetLogger(ro)
+				w.SetLogLevel(stackage.AllLogLevels)
+				w.SetLogger("stderr")
+				w.UnsetLogLevel(stackage.LogLevel1)
+				w.SetLogger("off")
+				w.SetDelimiter(ro)
+				wc := stackage.Cond("k", stackage.Eq, "v")
+				wc.SetLogger(stackage.Cond("k", stackage.Eq, ro))
+				wc.SetLogger(ro)
+				wc.SetLogLevel(stackage.AllLogLevels)
+				wc.SetLogger("off")
 				return ""
 			})
 			tok = "collect D" + b01(roBefore != deepDump(roChild))
